@@ -1,8 +1,11 @@
 //! Conformance harness: binds the TLA+ specifications in /verif/spec to the
 //! implementation in /repo (path dependency, rebuilt from the working tree).
 
+#[allow(dead_code)]
+mod cases;
 mod graph;
 mod pool_driver;
+mod votor_driver;
 mod world;
 
 use serde_json::{Value, json};
@@ -43,6 +46,18 @@ fn main() -> anyhow::Result<()> {
                 let rep = graph::replay(&g, &mut d, &opts);
                 rep.to_json("pool")
             }
+        }
+        "replay-votor" => {
+            let path = arg_after(&args, "--tlc-out").expect("--tlc-out");
+            let own: usize = arg_after(&args, "--own").and_then(|s| s.parse().ok()).unwrap_or(0);
+            let max_slot: u64 = arg_after(&args, "--max-slot").and_then(|s| s.parse().ok()).unwrap_or(7);
+            let sample = arg_after(&args, "--sample").and_then(|s| s.parse().ok());
+            let budget_s = arg_after(&args, "--budget").and_then(|s| s.parse().ok()).unwrap_or(0);
+            let max_div = arg_after(&args, "--max-div").and_then(|s| s.parse().ok()).unwrap_or(200);
+            let mut d = votor_driver::VotorDriver::new(&[1, 1, 1], own, max_slot, seed);
+            let g = graph::Graph::load(&path)?;
+            let opts = graph::ReplayOpts { sample, seed, max_div, budget_s };
+            graph::replay(&g, &mut d, &opts).to_json("votor")
         }
         _ => json!({"error": format!("unknown command {cmd}")}),
     };
